@@ -1,4 +1,6 @@
-//! Independent proleptic Gregorian reference calendar. Shares no table and no formula with chrono.
+//! Independent proleptic Gregorian reference calendar (the oracle). It shares no table and no
+//! formula with chrono: leap rule by divisibility, month lengths by a match, weekdays and day
+//! numbers by Hinnant's `days_from_civil`, ISO weeks by the "week of the Thursday" rule.
 pub const MIN_YEAR: i32 = -262143;
 pub const MAX_YEAR: i32 = 262142;
 
@@ -24,5 +26,95 @@ pub fn days_in_year(y: i32) -> u32 {
         366
     } else {
         365
+    }
+}
+pub fn year_in_range(y: i32) -> bool {
+    y >= MIN_YEAR && y <= MAX_YEAR
+}
+pub fn valid_ymd(y: i32, m: u32, d: u32) -> bool {
+    year_in_range(y) && m >= 1 && m <= 12 && d >= 1 && d <= days_in_month(y, m)
+}
+pub fn valid_yo(y: i32, o: u32) -> bool {
+    year_in_range(y) && o >= 1 && o <= days_in_year(y)
+}
+/// days before the first of month m (non-cumulative table written out by hand)
+pub fn days_before_month(y: i32, m: u32) -> u32 {
+    let l = if is_leap(y) { 1 } else { 0 };
+    match m {
+        1 => 0,
+        2 => 31,
+        3 => 59 + l,
+        4 => 90 + l,
+        5 => 120 + l,
+        6 => 151 + l,
+        7 => 181 + l,
+        8 => 212 + l,
+        9 => 243 + l,
+        10 => 273 + l,
+        11 => 304 + l,
+        _ => 334 + l,
+    }
+}
+pub fn ordinal_of(y: i32, m: u32, d: u32) -> u32 {
+    days_before_month(y, m) + d
+}
+/// (month, day) of ordinal `o` in year `y`; requires 1 <= o <= days_in_year(y).
+pub fn md_of_ordinal(y: i32, o: u32) -> (u32, u32) {
+    let mut m = 12;
+    while m > 1 && days_before_month(y, m) >= o {
+        m -= 1;
+    }
+    (m, o - days_before_month(y, m))
+}
+/// Hinnant days_from_civil: days since 1970-01-01 (any i32 year fits in i64).
+pub fn days_from_civil(y: i32, m: u32, d: u32) -> i64 {
+    let y = y as i64 - if m <= 2 { 1 } else { 0 };
+    let era = if y >= 0 { y } else { y - 399 } / 400;
+    let yoe = y - era * 400; // [0, 399]
+    let mp = if m > 2 { m as i64 - 3 } else { m as i64 + 9 };
+    let doy = (153 * mp + 2) / 5 + d as i64 - 1; // [0, 365]
+    let doe = yoe * 365 + yoe / 4 - yoe / 100 + doy; // [0, 146096]
+    era * 146097 + doe - 719468
+}
+/// Day number with 0001-01-01 = 1 (chrono's `num_days_from_ce`).
+pub fn days_from_ce(y: i32, m: u32, d: u32) -> i64 {
+    days_from_civil(y, m, d) + 719163
+}
+/// Weekday index, Monday = 0. 1970-01-01 was a Thursday. Uses only the position inside the
+/// 400-year era (146097 is a multiple of 7).
+pub fn weekday_index(y: i32, m: u32, d: u32) -> u32 {
+    let yy = y as i64 - if m <= 2 { 1 } else { 0 };
+    let yoe = yy.rem_euclid(400);
+    let mp = if m > 2 { m as i64 - 3 } else { m as i64 + 9 };
+    let doy = (153 * mp + 2) / 5 + d as i64 - 1;
+    let doe = yoe * 365 + yoe / 4 - yoe / 100 + doy;
+    // 0000-03-01 (doe = 0 of era 0) is days_from_civil = -719468; (-719468 + 3) mod 7
+    ((doe + (-719468i64 + 3).rem_euclid(7)) % 7) as u32
+}
+pub fn weekday_of_yo(y: i32, o: u32) -> u32 {
+    (weekday_index(y, 1, 1) + o - 1) % 7
+}
+/// ISO 8601: number of weeks of ISO year y: 53 iff 1 Jan is a Thursday, or a Wednesday in a leap year.
+pub fn iso_weeks_in_year(y: i32) -> u32 {
+    let w = weekday_index(y, 1, 1);
+    if w == 3 || (w == 2 && is_leap(y)) {
+        53
+    } else {
+        52
+    }
+}
+/// ISO (year, week) of the date with ordinal o in year y: the year and week-of-year of that week's Thursday.
+pub fn iso_year_week(y: i32, o: u32) -> (i32, u32) {
+    let wd = weekday_of_yo(y, o) as i32;
+    let th = o as i32 - wd + 3; // ordinal of the Thursday of this week, relative to year y
+    if th < 1 {
+        let py = y - 1;
+        let t = th + days_in_year(py) as i32;
+        (py, ((t - 1) / 7 + 1) as u32)
+    } else if th > days_in_year(y) as i32 {
+        let t = th - days_in_year(y) as i32;
+        (y + 1, ((t - 1) / 7 + 1) as u32)
+    } else {
+        (y, ((th - 1) / 7 + 1) as u32)
     }
 }
